@@ -34,29 +34,25 @@ def generate():
 
 
 def _prepare(repo):
+    """Materialise the witness crate for `repo` in a build directory under .cache (the committed
+    crate in /verif/witness is never modified) and make sure cargo cannot replay a stale verdict."""
+    import hashlib
+    bdir = os.path.join(factsmod.CACHE, "witness-build-" + hashlib.sha256(repo.encode()).hexdigest()[:10])
+    os.makedirs(os.path.join(bdir, "src"), exist_ok=True)
+    shutil.copyfile(os.path.join(WDIR, "src", "lib.rs"), os.path.join(bdir, "src", "lib.rs"))
+    ct = open(os.path.join(WDIR, "Cargo.toml")).read()
+    ct = ct.replace('path = "/repo"', 'path = "%s"' % repo)
+    with open(os.path.join(bdir, "Cargo.toml"), "w") as fh:
+        fh.write(ct)
     lock = os.path.join(repo, "Cargo.lock")
     if os.path.exists(lock):
-        shutil.copyfile(lock, os.path.join(WDIR, "Cargo.lock"))
-    # path of the dependency follows VERIF_REPO
-    ct = os.path.join(WDIR, "Cargo.toml")
-    s = open(ct).read()
-    want = 'futures-concurrency = { path = "%s", default-features = false }' % repo
-    lines = []
-    changed = False
-    for l in s.split("\n"):
-        if l.startswith("futures-concurrency = {") and l != want:
-            l = want
-            changed = True
-        lines.append(l)
-    if changed:
-        with open(ct, "w") as fh:
-            fh.write("\n".join(lines))
-    # never let cargo replay a stale verdict
+        shutil.copyfile(lock, os.path.join(bdir, "Cargo.lock"))
     fp = os.path.join(TARGET, "debug", ".fingerprint")
     if os.path.isdir(fp):
         for e in os.listdir(fp):
             if e.startswith("futures-concurrency-") or e.startswith("fc-witness-"):
                 shutil.rmtree(os.path.join(fp, e), ignore_errors=True)
+    return bdir
 
 
 def check(config, twins, index, repo=None):
@@ -64,7 +60,10 @@ def check(config, twins, index, repo=None):
     errors: {witness name: [ {code, message, line} ]}, unattributed: [...], wall_s, cmd."""
     repo = repo or factsmod.REPO
     os.makedirs(factsmod.CACHE, exist_ok=True)
-    _prepare(repo)
+    import fcntl
+    lk = open(os.path.join(factsmod.CACHE, "lock-witness"), "w")
+    fcntl.flock(lk, fcntl.LOCK_EX)   # held until the process exits or `lk` is collected at return
+    bdir = _prepare(repo)
     env = dict(os.environ, CARGO_NET_OFFLINE="true", CARGO_TARGET_DIR=TARGET)
     env.pop("RUSTC_WORKSPACE_WRAPPER", None)
     env.pop("RUSTC_WRAPPER", None)
@@ -74,7 +73,7 @@ def check(config, twins, index, repo=None):
     env["RUSTFLAGS"] = flags
     cmd = ["cargo", "+nightly", "check", "--offline", "--lib", "--message-format=json"] + FEATURES[config]
     t0 = time.time()
-    r = subprocess.run(cmd, cwd=WDIR, env=env, stdout=subprocess.PIPE, stderr=subprocess.PIPE, text=True)
+    r = subprocess.run(cmd, cwd=bdir, env=env, stdout=subprocess.PIPE, stderr=subprocess.PIPE, text=True)
     wall = time.time() - t0
     by_line = []
     for w in index:
